@@ -61,6 +61,14 @@ type parser struct {
 
 func nilIface(k crypto.Key) bool { return k == nil }
 
+// clobber overwrites a buffer a key was decoded from (the caller re-uses or
+// wipes it afterwards): a decoded key must own its bytes.
+func clobber(b []byte) {
+	for i := range b {
+		b[i] = 0xAA
+	}
+}
+
 func TestC11(t *testing.T) {
 	run := evid.Start("C11", "exploration")
 	acc := enum.NewAcc(run, "4 fixture keys x every encoding and every ordered pair of encodings (round trips); reference-built 64/96-byte, PEM and base58 encodings; every single-byte change of the redundant halves of the 96-byte form; every byte substitution / truncation / one-byte extension of each valid protobuf, PEM and base58 encoding and a menu of PEM/text variants, each offered to all 11 parsers; all byte strings of length <=3 over a boundary alphabet; a case is non-trivial unless it is the plain round trip of a fixture key through one encoding; distinct by (group, description)")
@@ -153,7 +161,9 @@ func TestC11(t *testing.T) {
 			if err != nil {
 				return nil, e2(err, "encode")
 			}
-			return crypto.UnmarshalPrivateKey(b)
+			k2, err := crypto.UnmarshalPrivateKey(b)
+			clobber(b)
+			return k2, err
 		}},
 		{"config-base64", func(k crypto.PrivKey) (crypto.PrivKey, error) {
 			b, err := crypto.MarshalPrivateKey(k)
@@ -164,14 +174,18 @@ func TestC11(t *testing.T) {
 			if err != nil {
 				return nil, err
 			}
-			return crypto.UnmarshalPrivateKey(d)
+			k2, err := crypto.UnmarshalPrivateKey(d)
+			clobber(d)
+			return k2, err
 		}},
 		{"keypem", func(k crypto.PrivKey) (crypto.PrivKey, error) {
 			b, err := keypem.MarshalPrivKeyPem(k)
 			if err != nil {
 				return nil, e2(err, "encode")
 			}
-			return keypem.ParsePrivKeyPem(b)
+			k2, err := keypem.ParsePrivKeyPem(b)
+			clobber(b)
+			return k2, err
 		}},
 		{"keypem-any", func(k crypto.PrivKey) (crypto.PrivKey, error) {
 			b, err := keypem.MarshalPrivKeyPem(k)
@@ -240,7 +254,9 @@ func TestC11(t *testing.T) {
 			if err != nil {
 				return nil, e2(err, "encode")
 			}
-			return crypto.UnmarshalPublicKey(b)
+			k2, err := crypto.UnmarshalPublicKey(b)
+			clobber(b) // the caller re-uses / wipes its buffer: the decoded key must not change
+			return k2, err
 		}},
 		{"proto-message", func(k crypto.PubKey) (crypto.PubKey, error) {
 			m, err := crypto.PublicKeyToProto(k)
@@ -254,7 +270,9 @@ func TestC11(t *testing.T) {
 			if err != nil {
 				return nil, e2(err, "encode")
 			}
-			return keypem.ParsePubKeyPem(b)
+			k2, err := keypem.ParsePubKeyPem(b)
+			clobber(b)
+			return k2, err
 		}},
 		{"keypem-any", func(k crypto.PubKey) (crypto.PubKey, error) {
 			b, err := keypem.MarshalPubKeyPem(k)
@@ -272,7 +290,9 @@ func TestC11(t *testing.T) {
 			if err != nil {
 				return nil, e2(err, "encode")
 			}
-			return confparse.ParsePublicKeyPEM(b)
+			k2, err := confparse.ParsePublicKeyPEM(b)
+			clobber(b)
+			return k2, err
 		}},
 		{"confparse-pem-string", func(k crypto.PubKey) (crypto.PubKey, error) {
 			b, err := confparse.MarshalPublicKeyPEM(k)
